@@ -166,6 +166,39 @@ let () =
       string_of_int (int_of_n (final_status (List.map (fun c -> n_of_int (Char.code c - 48)) (List.init (String.length ev) (String.get ev))) (nw = "1")))
     | [nw] -> string_of_int (int_of_n (final_status [] (nw = "1"))) | _ -> "ERR")
 
+(* range coder: tokens a<i>:<b> (adaptive variable i), p<prob>:<b> (fixed probability), d<b> (direct) *)
+let () =
+  reg "rcenc" (fun toks ->
+    let ad = Hashtbl.create 64 in
+    let getp i = match Hashtbl.find_opt ad i with Some p -> p | None -> n_of_int 1024 in
+    let kinds = ref [] in
+    let ds = List.map (fun t ->
+      let bit s = (s = "1") in
+      match t.[0] with
+      | 'a' -> (match String.split_on_char ':' (String.sub t 1 (String.length t - 1)) with
+                | [i; b] -> let i = int_of_string i land 63 in let p = getp i in
+                            Hashtbl.replace ad i (prob_update p (bit b)); kinds := Some p :: !kinds; DBit (p, bit b)
+                | _ -> failwith "tok")
+      | 'p' -> (match String.split_on_char ':' (String.sub t 1 (String.length t - 1)) with
+                | [p; b] -> let p = n_of_int (int_of_string p) in kinds := Some p :: !kinds; DBit (p, bit b)
+                | _ -> failwith "tok")
+      | 'd' -> kinds := None :: !kinds; DDirect (t.[1] = '1')
+      | _ -> failwith "tok") toks in
+    let out = encode ds in
+    (* decode it back with the model decoder, same probabilities *)
+    let ok = match rc_init (out @ [n_of_int 170; n_of_int 85]) with
+      | None -> false
+      | Some r0 ->
+        let r = ref r0 and good = ref true in
+        List.iter2 (fun k d ->
+          let (b, r') = match k with Some p -> rc_decode_bit !r p | None -> rc_direct1 !r in
+          r := r';
+          let want = match d with DBit (_, b) -> b | DDirect b -> b in
+          if b <> want then good := false) (List.rev !kinds) ds;
+        let rz = rc_normalize !r in
+        !good && int_of_n rz.rcode = 0 && List.length rz.rin = 2 && not rz.rfail in
+    Printf.sprintf "%s %d" (hex_of_bytes out) (if ok then 1 else 0))
+
 let () =
   reg "outqhist" (fun toks ->
     (* the driver refuses G beyond 128 live buffers and W/F on missing indices exactly like the model's upd on short lists *)
